@@ -619,6 +619,7 @@ impl Duplex {
 
 impl Read for Duplex {
     fn read(&mut self, buf: &mut [u8]) -> io::Result<usize> {
+        crate::mon::stack_probe();
         crate::mon::suspended(|| self.read_inner(buf))
     }
 }
@@ -642,6 +643,7 @@ impl Duplex {
 
 impl Write for Duplex {
     fn write(&mut self, buf: &[u8]) -> io::Result<usize> {
+        crate::mon::stack_probe();
         crate::mon::suspended(|| self.write_inner(buf))
     }
     fn flush(&mut self) -> io::Result<()> {
